@@ -90,6 +90,7 @@ type fidInfo struct {
 	lastSpec *upSpec
 	lastSeq  string // relation of the last upload to what the file id held before
 	entry    string // "holder" / "non-holder": whether the server the last op was sent to holds the volume
+	during   string // "all-replicas-up" / "replica-down": state of the volume's replicas when the last op returned
 	hist     []opRec
 	judged   int
 }
@@ -286,6 +287,12 @@ type world struct {
 	down    map[int]bool // servers currently stopped or killed
 	mu      sync.Mutex
 	fault   string // label of the fault episode in progress ("" none)
+}
+
+func (w *world) setDown(server int, d bool) {
+	w.mu.Lock()
+	w.down[server] = d
+	w.mu.Unlock()
 }
 
 func (w *world) serverIndex(addr string) int {
@@ -524,6 +531,12 @@ func (w *world) record(f *fidInfo, kind string, primary int, s *upSpec, st int) 
 	}
 	if f.entry == "non-holder" {
 		w.r.Count("ops_sent_to_a_server_not_holding_the_volume", 1)
+	}
+	f.during = "all-replicas-up"
+	for _, sv := range f.Vol.Servers {
+		if w.down[sv] {
+			f.during = "replica-down"
+		}
 	}
 	f.hist = append(f.hist, opRec{Kind: kind, Primary: primary, Spec: s, Status: st, Fault: w.fault})
 	if len(f.hist) > 12 {
@@ -767,7 +780,7 @@ func (w *world) judge(f *fidInfo, when string) {
 		case "decoded-content-differs", "content-length-differs", "replica-does-not-serve-the-uploaded-content":
 			group = "content"
 		}
-		sig := lib.Sig{"op": op, "class": class, "level": level, "input": input, "group": group, "payload": payloadIn, "seq": f.lastSeq, "entry": f.entry}
+		sig := lib.Sig{"op": op, "class": class, "level": level, "input": input, "group": group, "payload": payloadIn, "seq": f.lastSeq, "entry": f.entry, "during": f.during}
 		r.Violation(sig, map[string]interface{}{"fid": f.Fid, "replication": f.Vol.Repl, "servers": f.Vol.Servers, "when": when,
 			"fault_context": faultCtx, "ops_on_fid": f.hist, "replica_a": a, "replica_b": b})
 	}
@@ -1102,7 +1115,7 @@ func (w *world) episodeStop(v *volInfo, rng *rand.Rand, del bool) bool {
 		f = w.newFidOn(v, rng)
 	}
 	w.c.Kill(w.c.Volumes[x], syscall.SIGSTOP)
-	w.down[x] = true
+	w.setDown(x, true)
 	w.fault = fmt.Sprintf("sigstop:server%d", x)
 	r.Count("fault_sigstop", 1)
 	s := genSpec(rng)
@@ -1116,7 +1129,7 @@ func (w *world) episodeStop(v *volInfo, rng *rand.Rand, del bool) bool {
 		r.Count("fault_hit_inflight_op", 1)
 	}
 	w.c.Kill(w.c.Volumes[x], syscall.SIGCONT)
-	w.down[x] = false
+	w.setDown(x, false)
 	st, fin := waitDone(done, 90)
 	if !fin {
 		r.Inconclusive("operation did not finish within 90s after SIGCONT")
@@ -1147,7 +1160,7 @@ func (w *world) episodeStopKill(v *volInfo, rng *rand.Rand) bool {
 	f := fs[0]
 	affected := w.volsOn(x)
 	w.c.Kill(w.c.Volumes[x], syscall.SIGSTOP)
-	w.down[x] = true
+	w.setDown(x, true)
 	w.fault = fmt.Sprintf("sigkill-midop:server%d", x)
 	s := genSpec(rng)
 	done, running := inFlight(func() int { return w.doUpload(f, p, s) })
@@ -1186,7 +1199,7 @@ func (w *world) episodeStopKill(v *volInfo, rng *rand.Rand) bool {
 		r.Inconclusive(fmt.Sprintf("restarted volume server %d did not come back within the bound", x))
 		return false
 	}
-	w.down[x] = false
+	w.setDown(x, false)
 	w.fault = "after-restart"
 	// recovery operations on the affected file ids
 	w.upload(f, p, s)
@@ -1275,7 +1288,7 @@ func (w *world) episodeKillStream(x int, rng *rand.Rand) bool {
 		return false
 	}
 	okFlow := waitOps(3)
-	w.down[x] = true
+	w.setDown(x, true)
 	killSeq = atomic.AddInt64(&clock, 1)
 	_ = syscall.Kill(-w.c.Volumes[x].Cmd.Process.Pid, syscall.SIGKILL)
 	r.Count("fault_sigkill", 1)
@@ -1293,7 +1306,7 @@ func (w *world) episodeKillStream(x int, rng *rand.Rand) bool {
 		r.Inconclusive(fmt.Sprintf("restarted volume server %d did not come back within the bound", x))
 		return false
 	}
-	w.down[x] = false
+	w.setDown(x, false)
 	inflight, during := 0, 0
 	for _, rc := range recs {
 		if rc.start < killSeq && rc.end > killSeq {
@@ -1332,7 +1345,7 @@ func main() {
 	for i := 0; i < 3; i++ {
 		c.StartVolume()
 	}
-	if !c.WaitAssign("replication=002", 120) || !c.WaitAssign("replication=001", 60) {
+	if !c.WaitAssign("replication=002", 180) || !c.WaitAssign("replication=001", 60) {
 		finish(0)
 	}
 	w := &world{r: r, c: c, grpcOpt: grpc.WithInsecure(), vols: map[uint32]*volInfo{}, byFid: map[string]*fidInfo{}, down: map[int]bool{},
